@@ -140,3 +140,30 @@ func ZZ_C09_registry_named() {
 	zz.Assert((h1 == h2) == (n1 == n2 && zzStructEq(t1, t2)), "named type deduplication disagrees with (name, structure) equality")
 	zz.Reach("end")
 }
+
+// Digit boundaries between adjacent numbers of a key: pairs of field values whose decimal
+// renderings concatenate to the same digits ("1"+"23" = "12"+"3") must still be told apart
+// (concrete table; a separator dropped between two numeric fields shows here without any
+// search).
+func ZZ_C09_registry_digit_boundaries() {
+	pairs := [][4]uint32{{1, 23, 12, 3}, {1, 12, 11, 2}, {2, 34, 23, 4}, {12, 345, 123, 45}, {1, 10, 11, 0}, {21, 1, 2, 11}}
+	p := pairs[zz.Choice("pair", len(pairs))]
+	shape := zz.Choice("fields", 4)
+	mk := func(a, b uint32) ir.TypeInner {
+		switch shape {
+		case 0: // array: base | size
+			return ir.ArrayType{Base: ir.TypeHandle(a), Size: ir.ArraySize{Constant: &b}, Stride: 4}
+		case 1: // array: size | stride
+			return ir.ArrayType{Base: 1, Size: ir.ArraySize{Constant: &a}, Stride: b}
+		case 2: // binding array: base | size
+			return ir.BindingArrayType{Base: ir.TypeHandle(a), Size: &b}
+		default: // array: base | stride with a dynamic size
+			return ir.ArrayType{Base: ir.TypeHandle(a), Stride: b}
+		}
+	}
+	r := NewTypeRegistry()
+	h1 := r.GetOrCreate("", mk(p[0], p[1]))
+	h2 := r.GetOrCreate("", mk(p[2], p[3]))
+	zz.Assert(h1 != h2, "two structurally different types share a deduplication key (digit boundary between two numeric fields)")
+	zz.Reach("end")
+}
